@@ -635,6 +635,19 @@ def check_C07(ctx):
     if ctx.harness and not (ctx.replay and json.load(open(ctx.replay)).get("family") != "frames"):
         sigs = set()
         for run in frames_runs(ctx, 120, 3000, fam="frames", model=False):
+            if run.get("rc", 0) != 0 and not run.get("skipped") and "hang" in run.get("log", "") and "render-hang" not in sigs:
+                # "rendering always terminates": a frame that never comes is this property's business too
+                sigs.add("render-hang")
+                last = None
+                try:
+                    tr = split_traces(os.path.join(run["dir"], "cases.txt"))
+                    last = tr[-1] if tr else None
+                except Exception:
+                    pass
+                rep = {"family": "frames", "run_seed": run["seed"], "n": run["n"]}
+                if last is not None:
+                    rep["k"], rep["script"] = last["k"], last["hdr"] + script_of(last) + ["end"]
+                ctx.add_violation("a container scenario hung while rendering: " + run["log"].strip()[-300:], "render-hang", rep)
             for c in split_traces(os.path.join(run["dir"], "cases.txt")):
                 ctx.cov["evaluations"] += 1
                 mon = M.c07_frames_monitor(c, frames_of(c))
